@@ -264,8 +264,8 @@ structure DirEnt where
 def readEntry (b fat : Bytes) (p : Nat) : Outcome CFile :=
   let e := (b.drop p).take 32
   match Cas.utf8Decode (e.take 8), Cas.utf8Decode ((e.drop 8).take 3) with
-  | none, _ => .internal                                -- UnicodeDecodeError
-  | _, none => .internal
+  | none, _ => .diag                                    -- UnicodeDecodeError, reported as a validation error
+  | _, none => .diag
   | some name, some ext =>
     let ftype := e.getD 11 0
     let dtype := e.getD 12 0
